@@ -261,13 +261,20 @@ func cmdCheck(args []string) int {
 			lines = append(lines, fmt.Sprintf("KNOWN-FINDING: property=%s %s %s", prop, n, f.What))
 			continue
 		}
+		if ns.Status == "error" {
+			// a solver could not even read the query: a defect of the machinery, never a verdict
+			undecided = append(undecided, fmt.Sprintf("solver error on %s: %s", n, firstLines(ns.Fail.Output, 3)))
+			continue
+		}
 		inBase := haveBase && base.Obligations[n] == "discharged"
 		replayPath, replayed, rnote := eng.tryReplay(vd, od, prop, ns, timeout)
 		switch {
 		case replayed:
 			violations++
 			lines = append(lines, fmt.Sprintf("VIOLATION property=%s replay=%s", prop, replayPath))
-		case inBase || !haveBase:
+		case inBase || !haveBase || ns.Status == "sat":
+			// an obligation that was discharged on the committed tree and now fails, or a new obligation for
+			// which a solver exhibits a model of the violation
 			violations++
 			lines = append(lines, fmt.Sprintf("VIOLATION property=%s replay=%s no-failing-input-found", prop, replayPath))
 		default:
